@@ -35,7 +35,7 @@ for the condition wait:
 ```
 A module whose environment cannot be set up (`P.broken`: `m.env` fails in `module.load`, e.g. the module's project is not in
 the build list) executes nothing. *As written* `load` then returns the error without `m.done(…)` — the module stays in
-the registry with `loaded = false` and later loaders wait for it for ever (D17); *fixed*, the error goes through
+the registry with `loaded = false` and later loaders wait for it for ever (D24); *fixed*, the error goes through
 `m.done(nil, err)`: `run` on a broken top frame → `fin err`.
 
 Critical sections that contain no blocking operation are one atomic step. `mlock m` is `m.m` (a non-reentrant
@@ -103,7 +103,7 @@ def walkNext : Version → String
   | .asWritten => "receiver.getLoading"     -- `loading = m.getLoading()`: re-locks m.m, which `wait` holds (D4)
   | .fixed => "loading.getLoading"          -- `loading = loading.getLoading()`
 def envErrorPath : Version → String
-  | .asWritten => "plain"                   -- `return nil, err` without `m.done(…)` (D17)
+  | .asWritten => "plain"                   -- `return nil, err` without `m.done(…)` (D24)
   | .fixed => "done"                        -- `return m.done(nil, err)`
 def doneShape : List String :=
   ["set R.data,R.err", "R.m.Lock", "set R.loaded", "R.m.Unlock", "R.cond.Broadcast", "return"]
@@ -158,7 +158,7 @@ def next (v : Version) (P : Project) (s : State) (t : Tid) : Option State :=
       if P.broken f.mod then
         -- `t, builtins, err := m.env(proj); if err != nil { … }`
         match v with
-        | .asWritten => some { s with stack := upd s.stack t rest, pc := upd s.pc t (.unset .err) }  -- `return nil, err`: no done() (D17)
+        | .asWritten => some { s with stack := upd s.stack t rest, pc := upd s.pc t (.unset .err) }  -- `return nil, err`: no done() (D24)
         | .fixed => some (setPc s t (.fin .err))                                                      -- `return m.done(nil, err)`
       else
       match f.todo with
